@@ -1183,6 +1183,8 @@ func (g *Gen) specFnText() string {
 	}
 	for _, r := range g.P.cs.Raw {
 		b.WriteString(r + "\n")
+		// raw SMT-LIB lines of contract files are unchecked axioms: listed in the evidence
+		g.assumedUsed["raw SMT axiom of a contract/spec file: "+truncate(r, 160)] = true
 	}
 	return b.String()
 }
